@@ -86,6 +86,51 @@ type c18Case struct {
 
 // c18Siblings: two routes whose first segment is a bind parameter of a different name (placeholder or
 // regex), registered in either order: each route's handler must be able to read its own parameter.
+// c18Rewrite: a handler reads the query, the request's query string is replaced (as a middleware that
+// strips or rewrites parameters does), and the handler reads again: the accessors answer for the request
+// as it is when they are called.
+func c18Rewrite(first, second string, secondAbsent bool) string {
+	f := flamego.NewWithLogger(io.Discard)
+	var a1, a2, s1, s2 string
+	var i2 int
+	f.Get("/q", func(c flamego.Context) {
+		a1 = c.Query("k", "DEF")
+		s1 = strings.Join(c.QueryStrings("k"), "|")
+		if secondAbsent {
+			c.Request().URL.RawQuery = "z=1"
+		} else {
+			c.Request().URL.RawQuery = "z=1&k=" + url.QueryEscape(second) + "&k=tail"
+		}
+		a2 = c.Query("k", "DEF")
+		s2 = strings.Join(c.QueryStrings("k"), "|")
+		i2 = c.QueryInt("k", 77)
+	})
+	req := newReq("GET", "/q")
+	req.URL.RawQuery = "k=" + url.QueryEscape(first)
+	var pan interface{}
+	func() {
+		defer func() { pan = recover() }()
+		f.ServeHTTP(&c01Spy{hdr: http.Header{}}, req)
+	}()
+	if pan != nil {
+		return fmt.Sprintf("panicked: %v", pan)
+	}
+	if a1 != first || s1 != first {
+		return fmt.Sprintf("first read: Query = %q, QueryStrings = %q, expected %q", a1, s1, first)
+	}
+	want, wantS, wantI := second, second+"|tail", 0
+	if n, err := strconv.Atoi(second); err == nil || true {
+		wantI = n
+	}
+	if secondAbsent {
+		want, wantS, wantI = "DEF", "", 77
+	}
+	if a2 != want || s2 != wantS || i2 != wantI {
+		return fmt.Sprintf("after the request's query string was replaced: Query = %q, QueryStrings = %q, QueryInt = %d, expected %q, %q, %d (first read gave %q)", a2, s2, i2, want, wantS, wantI, a1)
+	}
+	return ""
+}
+
 // (Values of abandoned branches may linger under the other name - documented by Tree.Match - so only the
 // route's own parameter is read.)
 func c18Siblings(kind string, firstIsO bool, val string) string {
@@ -608,6 +653,21 @@ func c18Run(r *core.Run) {
 			}
 		}
 	}
+	for _, a := range nestVals {
+		for _, b := range nestVals {
+			for _, absent := range []bool{false, true} {
+				l.Evals++
+				l.Transitions += 2
+				l.Traces++
+				l.NonTrivial++
+				if bad := c18Rewrite(a, b, absent); bad != "" {
+					l.Violate("query-after-the-query-string-was-replaced", bad, c18Case{Mode: "rewrite", RawHex: fmt.Sprintf("%x", a), Raw: fmt.Sprintf("%q", a), Inner: b, Absent: absent})
+				} else {
+					l.Class("query:read-rewrite-read")
+				}
+			}
+		}
+	}
 	for _, kind := range []string{"placeholder", "regex"} {
 		for _, firstIsO := range []bool{true, false} {
 			for _, v := range nestVals {
@@ -666,6 +726,8 @@ func c18Replay(raw json.RawMessage) (bool, string) {
 		bad, _, _ = c18CookieRead(w, s, c.Absent)
 	case "cookie-roundtrip":
 		bad = c18RoundTrip(s)
+	case "rewrite":
+		bad = c18Rewrite(s, c.Inner, c.Absent)
 	case "siblings-placeholder":
 		bad = c18Siblings("placeholder", c.Absent, s)
 	case "siblings-regex":
